@@ -396,6 +396,7 @@ def run(prog: Program, rep: Report, tier: str):
     from . import c15
 
     c15.alias_substitution(prog, rep, "R03.10")
+    c15.string_annotation_parameters(prog, rep, "R03.10")
     rep.rule("R03.8", "no concrete class is routed to the pass-through routine (leaf test interpreted on the catalogue; shared with R09.9)", floor=1)
     C.leaf_test_agreement(prog, rep, "R03.8")
     rep.rule("R03.6", "composite forms reach the routine of their own structural kind (fixed tuples keep arity/positions; shared with R01.6)", floor=15)
